@@ -11,7 +11,10 @@ import (
 	"fmt"
 	"io"
 	"os"
+	"path/filepath"
+	"slices"
 	"strings"
+	"time"
 
 	"github.com/protobom/protobom/pkg/formats"
 	"github.com/protobom/protobom/pkg/native"
@@ -131,6 +134,12 @@ func bigGen(g *G, tier string) []M {
 		ops = append(ops, M{"op": "filePaths", "f": string(f)})
 	}
 	ops = append(ops, M{"op": "storeWrappers"})
+	// one document object written, edited by replacing a node object, written again; and chains of
+	// nested components
+	for _, f := range roundTripFormats {
+		ops = append(ops, M{"op": "rewriteAfterEdit", "f": string(f)})
+	}
+	ops = append(ops, M{"op": "deepChain"})
 	// one options value without a format shared by calls on writers of different formats, and a
 	// write to a stream that fails followed by ordinary writes
 	ops = append(ops, M{"op": "sharedCallOptions"}, M{"op": "failedWriteThenWrite"})
@@ -178,6 +187,12 @@ func ExecBig(op M) (res any) {
 	}
 	if asStr(op["op"]) == "sharedCallOptions" {
 		return sharedCallOptions()
+	}
+	if asStr(op["op"]) == "rewriteAfterEdit" {
+		return rewriteAfterEdit(formats.Format(asStr(op["f"])))
+	}
+	if asStr(op["op"]) == "deepChain" {
+		return deepChain()
 	}
 	if asStr(op["op"]) == "failedWriteThenWrite" {
 		return failedWriteThenWrite()
@@ -344,6 +359,35 @@ func filePaths(f formats.Format) any {
 			bad("ParseFileWithOptions with the format stated gives (%s, %v)", js(bigSummary(withFmt)), oerr)
 		}
 	}
+	// the options of a call override the writer's, in the file variant as in the stream variant:
+	// writers of every other format, and one whose own format nothing is registered for
+	for _, own := range append(append([]formats.Format{}, roundTripFormats...), "verif/none", "") {
+		if own == f {
+			continue
+		}
+		wo := writer.New(writer.WithFormat(own))
+		call := &writer.Options{Format: f, RenderOptions: &native.RenderOptions{Indent: 2}}
+		p2 := dir + "/call.json"
+		_ = os.Remove(p2)
+		ferr := wo.WriteFileWithOptions(short, p2, call)
+		buf := nopCloser{&bytes.Buffer{}}
+		serr := wo.WriteStreamWithOptions(short, buf, call)
+		if (ferr == nil) != (serr == nil) {
+			bad("a %q writer called with format %s: WriteFileWithOptions gives error %v, WriteStreamWithOptions %v", own, f, ferr, serr)
+			continue
+		}
+		if ferr != nil {
+			bad("a %q writer called with format %s fails: %v", own, f, ferr)
+			continue
+		}
+		onDisk, _ := os.ReadFile(p2)
+		if outputDigest(onDisk) != outputDigest(buf.Bytes()) {
+			bad("a %q writer called with format %s: the file and the stream variant write different output", own, f)
+		}
+		if got, err := (&formats.Sniffer{}).SniffFile(p2); err != nil || got != f {
+			bad("a %q writer called with format %s writes a file detected as %q (%v)", own, f, got, err)
+		}
+	}
 	if _, err := reader.New().ParseFile(dir + "/missing.json"); err == nil {
 		bad("ParseFile of a missing file returns no error")
 	}
@@ -404,6 +448,48 @@ func storeWrappers() any {
 	}
 	if got, err := r.Retrieve("urn:wrap:b"); err != nil || !proto.Equal(got, b) {
 		bad("the entry of another identifier changed (error %v)", err)
+	}
+	// one reader, one identifier, two generations: each retrieve gives what was stored last
+	{
+		gen1, gen2 := bigDoc(2, 16), bigDoc(5, 16)
+		gen1.Metadata.Id, gen2.Metadata.Id = "urn:wrap:generations", "urn:wrap:generations"
+		gen1.Metadata.Name, gen2.Metadata.Name = "first", "second"
+		if err := w.Store(gen1); err != nil {
+			bad("store of the first generation fails: %v", err)
+		}
+		if got, err := r.Retrieve("urn:wrap:generations"); err != nil || !proto.Equal(got, gen1) {
+			bad("retrieve after the first store does not give the stored document (error %v)", err)
+		}
+		if err := w.Store(gen2); err != nil {
+			bad("store of the second generation fails: %v", err)
+		}
+		if got, err := r.Retrieve("urn:wrap:generations"); err != nil || !proto.Equal(got, gen2) {
+			bad("the reader that retrieved the first generation returns %q after the second was stored (error %v)", got.GetMetadata().GetName(), err)
+		}
+		_ = os.Remove(entryPath(dir, "urn:wrap:generations"))
+		if got, err := r.Retrieve("urn:wrap:generations"); err == nil {
+			bad("the reader returns %q for an entry that was removed from the directory", got.GetMetadata().GetName())
+		}
+	}
+	// a backend without a directory refuses, and creates nothing in the working directory
+	{
+		before, _ := filepath.Glob("*.protobom*")
+		unset := storage.NewFileSystem()
+		doc := bigDoc(1, 16)
+		doc.Metadata.Id = "urn:wrap:unset-directory"
+		err := unset.Store(doc, &storage.StoreOptions{})
+		after, _ := filepath.Glob("*.protobom*")
+		for _, f := range after {
+			if !slices.Contains(before, f) {
+				bad("a store through a backend without a directory created %q in the working directory", f)
+				_ = os.Remove(f)
+			}
+		}
+		if err == nil {
+			if _, rerr := unset.Retrieve("urn:wrap:unset-directory", &storage.RetrieveOptions{}); rerr != nil {
+				bad("a store through a backend without a directory reports success, the retrieve that follows fails: %v", rerr)
+			}
+		}
 	}
 	// the default backends of two readers and two writers point where each was told to
 	dirA, dirB := dir+"/a", dir+"/b"
@@ -493,6 +579,94 @@ func sharedCallOptions() any {
 				bad("the call wrote format %q into the caller's options", shared.Format)
 				shared.Format = ""
 			}
+		}
+	}
+	return M{"problems": problems}
+}
+
+// rewriteAfterEdit: what a write produces is a function of the document as it is at the time of
+// the call; a caller that swaps a node object for another one between two writes (same identifier,
+// same list length) gets the new node written
+func rewriteAfterEdit(f formats.Format) any {
+	problems := []any{}
+	bad := func(format string, a ...any) { problems = append(problems, fmt.Sprintf(format, a...)) }
+	build := func(release string) *sbom.Document {
+		d := sbom.NewDocument()
+		d.Metadata.Id = "urn:uuid:0b1e0000-0000-4000-8000-000000000002"
+		d.Metadata.Name = "doc"
+		d.NodeList.AddRootNode(&sbom.Node{Id: "app", Name: "app", Version: release, Description: "release " + release,
+			Identifiers: map[int32]string{1: "pkg:generic/app@" + release}})
+		d.NodeList.AddNode(&sbom.Node{Id: "lib", Name: "lib", Version: release})
+		d.NodeList.AddEdge(&sbom.Edge{Type: sbom.Edge_contains, From: "app", To: []string{"lib"}})
+		return d
+	}
+	for _, victim := range []int{0, 1} {
+		doc := build("1.0.0")
+		first, err := WriteDoc(doc, f, 2)
+		if err != nil {
+			bad("write fails: %v", err)
+			continue
+		}
+		// lookups as callers make them between two writes
+		_ = doc.NodeList.GetNodeByID("app")
+		_ = doc.NodeList.GetNodeByID("lib")
+		_ = doc.NodeList.GetRootNodes()
+		other := build("2.0.0")
+		doc.NodeList.Nodes[victim] = other.NodeList.Nodes[victim]
+		want := build("1.0.0")
+		want.NodeList.Nodes[victim] = build("2.0.0").NodeList.Nodes[victim]
+		second, err := WriteDoc(doc, f, 2)
+		fresh, err2 := WriteDoc(want, f, 2)
+		if err != nil || err2 != nil {
+			bad("write after the edit fails: %v / %v", err, err2)
+			continue
+		}
+		if outputDigest(second) != outputDigest(fresh) {
+			bad("%s: a document written, edited by replacing node object %d and written again differs from the same content written for the first time", f, victim)
+		}
+		if outputDigest(second) == outputDigest(first) {
+			bad("%s: replacing node object %d between two writes does not change the output", f, victim)
+		}
+		back, err := reader.New().ParseStream(bytes.NewReader(second))
+		if err != nil {
+			bad("%s: the second output cannot be read back: %v", f, err)
+			continue
+		}
+		id := []string{"app", "lib"}[victim]
+		if n := back.NodeList.GetNodeByID(id); n == nil || n.Version != "2.0.0" {
+			bad("%s: node %q was replaced by its 2.0.0 release before the second write, it reads back as %v", f, id, n.GetVersion())
+		}
+	}
+	return M{"problems": problems}
+}
+
+// deepChain: chains of nested components, one child per level, well below every depth limit of the
+// decoders: parsing is linear in the depth
+func deepChain() any {
+	problems := []any{}
+	bad := func(format string, a ...any) { problems = append(problems, fmt.Sprintf(format, a...)) }
+	for _, depth := range []int{4, 24, 64, 200} {
+		var sb strings.Builder
+		sb.WriteString(`{"bomFormat":"CycloneDX","specVersion":"1.5","version":1,"components":[`)
+		for i := 0; i < depth; i++ {
+			fmt.Fprintf(&sb, `{"bom-ref":"c%d","type":"library","name":"c%d","components":[`, i, i)
+		}
+		sb.WriteString(`{"bom-ref":"leaf","type":"library","name":"leaf"}`)
+		for i := 0; i < depth; i++ {
+			sb.WriteString(`]}`)
+		}
+		sb.WriteString(`]}`)
+		t0 := time.Now()
+		d, err := reader.New().ParseStream(strings.NewReader(sb.String()))
+		if err != nil || d == nil {
+			bad("a chain of %d nested components does not parse: %v", depth, err)
+			continue
+		}
+		if n := len(d.NodeList.Nodes); n != depth+1 {
+			bad("a chain of %d nested components gives %d nodes", depth, n)
+		}
+		if el := time.Since(t0); el > 20*time.Second {
+			bad("a chain of %d nested components (%d bytes) takes %v to parse", depth, sb.Len(), el)
 		}
 	}
 	return M{"problems": problems}
@@ -611,7 +785,7 @@ func sniffLong(n int, shape string) any {
 func oracleBig(op M, res any, exec func(M) any) []Finding {
 	var out []Finding
 	name := asStr(op["op"])
-	if name == "filePaths" || name == "storeWrappers" || name == "sharedCallOptions" || name == "failedWriteThenWrite" {
+	if name == "filePaths" || name == "storeWrappers" || name == "sharedCallOptions" || name == "failedWriteThenWrite" || name == "rewriteAfterEdit" || name == "deepChain" {
 		what := "file entry points (" + asStr(op["f"]) + ")"
 		switch name {
 		case "storeWrappers":
@@ -620,6 +794,10 @@ func oracleBig(op M, res any, exec func(M) any) []Finding {
 			what = "call options shared between writers"
 		case "failedWriteThenWrite":
 			what = "writes after a failed write"
+		case "rewriteAfterEdit":
+			what = "writes of an edited document (" + asStr(op["f"]) + ")"
+		case "deepChain":
+			what = "chains of nested components"
 		}
 		if s, ok := res.(string); ok {
 			if s != "unknown-op" && s != "skipped-after-hang" {
@@ -792,13 +970,20 @@ func bigOpProps(op M) []string {
 		return []string{"C19"}
 	case "filePaths":
 		if isSpdxFormat(asStr(op["f"])) {
-			return []string{"C01", "C04", "C06", "C07"}
+			return []string{"C01", "C03", "C04", "C06", "C07", "C18"}
 		}
-		return []string{"C02", "C04", "C06", "C07"}
+		return []string{"C02", "C03", "C04", "C06", "C07", "C18"}
+	case "rewriteAfterEdit":
+		if isSpdxFormat(asStr(op["f"])) {
+			return []string{"C01", "C03", "C07"}
+		}
+		return []string{"C02", "C03", "C07"}
+	case "deepChain":
+		return []string{"C04", "C05"}
 	case "storeWrappers":
 		return []string{"C19"}
 	case "sharedCallOptions":
-		return []string{"C06", "C18"}
+		return []string{"C06", "C07", "C18"}
 	case "failedWriteThenWrite":
 		return []string{"C01", "C02", "C07"}
 	case "readerReuse":
